@@ -74,6 +74,8 @@ type Interval struct {
 	Events    []IvEvent
 	StartStep int
 	StartCut  int
+	StartSeq  uint64
+	EndSeq    uint64
 	Closed    bool
 	CloseWhy  string
 	Var       *Variant
@@ -437,7 +439,7 @@ func (c *Client) store(rid string, r *CRes, f *Frame) {
 	}
 	c.Cache[rid] = r
 	if r.Kind != 'e' && !r.Deleted {
-		r.iv = &Interval{RID: rid, Kind: r.Kind, Snapshot: c.resJSON(r), StartStep: f.Step, StartCut: f.Cut, Proto: c.Proto}
+		r.iv = &Interval{RID: rid, Kind: r.Kind, Snapshot: c.resJSON(r), StartStep: f.Step, StartCut: f.Cut, StartSeq: f.Seq, Proto: c.Proto}
 		c.Ivs = append(c.Ivs, r.iv)
 	}
 }
@@ -446,6 +448,7 @@ func (c *Client) closeInterval(r *CRes, why string) {
 	if r.iv != nil && !r.iv.Closed {
 		r.iv.Closed = true
 		r.iv.CloseWhy = why
+		r.iv.EndSeq = c.s.seqNow()
 	}
 }
 
@@ -790,7 +793,7 @@ func (c *Client) onEvent(f *Frame) {
 		c.gc()
 		if h := c.Cache[rid]; h != nil && h.Kind != 'e' && !h.Deleted {
 			// still held indirectly: a new holding interval starts
-			h.iv = &Interval{RID: rid, Kind: h.Kind, Snapshot: c.resJSON(h), StartStep: f.Step, StartCut: f.Cut, Proto: c.Proto}
+			h.iv = &Interval{RID: rid, Kind: h.Kind, Snapshot: c.resJSON(h), StartStep: f.Step, StartCut: f.Cut, StartSeq: f.Seq, Proto: c.Proto}
 			c.Ivs = append(c.Ivs, h.iv)
 		}
 		c.checkRefs(f)
